@@ -90,13 +90,14 @@ def program(spec, pname, tier, cap):
                   desc="from_str(s) vs ASCII-only-folding reference parser, every valid UTF-8 s of <= %d bytes (longest spelling + 3)" % N,
                   bound={"N_bytes": N, "alphabet": "all valid UTF-8"}, min_covers=ncov + len(extra), functions=fns)]
     ws = [w for w in c16.lookalikes(spec) if len(w.encode()) <= 16][: (8 if tier == "quick" else 40)]
-    if ws:
+    for ci in range(0, len(ws), 3):
+        chunk = ws[ci:ci + 3]
         wb = []
-        for w in ws:
-            wb.append("    { let ss = SymStr::<16>::fixed(%s); let r = <%s as core::str::FromStr>::from_str(ss.as_str()); check_parse(&r, oracle(ss.bytes()), ss.bytes()); }" % (rust_bytes(w.encode()), spec.ty()))
-        hs.append(Harness(name="h_ci_witness", body="\n".join(wb), unwind=18, kind="witness",
-                          desc="fixed look-alike / case-flip inputs derived from the spellings: %s" % ", ".join(repr(w) for w in ws),
-                          bound={"inputs": ws}, functions=fns))
+        for w in chunk:
+            wb.append("    { let ss = SymStr::<16>::fixed(%s); let r = <%s as core::str::FromStr>::from_str(ss.as_str()); check_parse(&r, oracle(ss.bytes()), ss.bytes()); core::mem::forget(r); }" % (rust_bytes(w.encode()), spec.ty()))
+        hs.append(Harness(name="h_ci_witness_%d" % (ci // 3), body="\n".join(wb), unwind=18, kind="witness",
+                          desc="fixed look-alike / case-flip inputs derived from the spellings: %s" % ", ".join(repr(w) for w in chunk),
+                          bound={"inputs": chunk}, functions=fns))
     return Program(name=pname, enum_src=src, helper_src=helper, harnesses=hs, summary=render_enum(spec), role=spec.role, note=spec.note)
 
 
